@@ -145,7 +145,7 @@ func c16stateDigest(st annotateast.AnnotateState) (string, string) {
 
 var c16parents = []string{"People", "Base", "Other"}
 var c16generics = []string{"T", "K", "V"}
-var c16params = []string{"a", "b", "c"}
+var c16params = []string{"a", "enum", "const"}
 
 func VerifRun_C16b() {
 	c16budget = verifParam("NODES")
@@ -183,7 +183,8 @@ func VerifRun_C16b() {
 		want += "]"
 	case 1: // ---@class Cls [: P {, P}]
 		n := verifConcretize(verifRange("n", 0, maxn))
-		text, want = "-@class Cls", "class Cls["
+		cname := []string{"Cls", "enum", "const", "field"}[verifConcretize(verifRange("kwname", 0, 3))]
+		text, want = "-@class "+cname, "class "+cname+"["
 		for i := 0; i < n; i++ {
 			if i == 0 {
 				switch verifConcretize(verifRange("colon", 0, 2)) {
@@ -216,8 +217,9 @@ func VerifRun_C16b() {
 			scope = "private"
 		}
 		g := c16item()
-		text += "f " + g.text
-		want = "field " + scope + " f " + g.canon
+		fname := []string{"f", "enum", "const", "type", "table", "fun"}[verifConcretize(verifRange("kwname", 0, 5))] // keywords of the annotation syntax are legal names
+		text += fname + " " + g.text
+		want = "field " + scope + " " + fname + " " + g.canon
 	case 3: // ---@param [const] x[?] T
 		text, want = "-@param ", "param "
 		if verifBool("const") {
@@ -226,8 +228,9 @@ func VerifRun_C16b() {
 		}
 		opt := verifBool("opt0")
 		g := c16item()
-		text += "x" + c16flag(opt) + " " + g.text
-		want += "x" + c16flag(opt) + " " + g.canon
+		pname := []string{"x", "enum", "type", "table", "fun", "class"}[verifConcretize(verifRange("kwname", 0, 5))] // (`const` is the modifier here)
+		text += pname + c16flag(opt) + " " + g.text
+		want += pname + c16flag(opt) + " " + g.canon
 	case 4: // ---@return T[?] {, T[?]}
 		n := verifConcretize(verifRange("n", 1, maxn))
 		text, want = "-@return ", "return["
